@@ -18,12 +18,43 @@ _ROOT = None
 _COUNTER = 0
 
 
+def _base():
+    return '/dev/shm' if os.access('/dev/shm', os.W_OK) else tempfile.gettempdir()
+
+
+def _sweep(base):
+    """remove scratch trees left behind by runs whose top-level process no longer exists (killed runs)"""
+    try:
+        names = os.listdir(base)
+    except OSError:
+        return
+    for n in names:
+        parts = n.split('.')
+        if len(parts) == 3 and parts[0] in ('wnmc', 'wnmc16', 'wnmc16r') and parts[1].isdigit() \
+                and not os.path.exists(f'/proc/{parts[1]}'):
+            shutil.rmtree(os.path.join(base, n), ignore_errors=True)
+
+
+def scratch_parent() -> str:
+    """One scratch tree per run: created by the first process that asks (the ./check process), handed to forked
+    pool workers and to sub-processes through the environment, removed by its creator at exit - workers that a
+    pool terminates never get to run their own exit handlers."""
+    p = os.environ.get('WNMC_SCRATCH_PARENT')
+    if p and os.path.isdir(p):
+        return p
+    base = _base()
+    _sweep(base)
+    p = tempfile.mkdtemp(prefix=f'wnmc.{os.getpid()}.', dir=base)
+    os.environ['WNMC_SCRATCH_PARENT'] = p
+    atexit.register(_cleanup, os.getpid(), Path(p))
+    return p
+
+
 def scratch_root() -> Path:
-    """Per-process scratch directory (RAM-backed if possible), removed at exit."""
+    """Per-process scratch directory (RAM-backed if possible) inside the run's scratch tree, removed at exit."""
     global _ROOT
     if _ROOT is None or _ROOT[0] != os.getpid():
-        base = '/dev/shm' if os.access('/dev/shm', os.W_OK) else tempfile.gettempdir()
-        path = Path(tempfile.mkdtemp(prefix=f'wnmc.{os.getpid()}.', dir=base))
+        path = Path(tempfile.mkdtemp(prefix=f'p{os.getpid()}.', dir=scratch_parent()))
         _ROOT = (os.getpid(), path)
         atexit.register(_cleanup, os.getpid(), path)
     return _ROOT[1]
@@ -75,6 +106,9 @@ def drop_db(d: Path):
 
 def db_path() -> Path:
     return Path(wn.config.database_path)
+
+
+scratch_parent()
 
 
 def snapshot() -> bytes:
